@@ -554,6 +554,13 @@ func faithful(v *verdict, prog *ast.Program, tree *m04.Tree, mut []minijs.Token,
 		}
 		v.exclude("C04-REGEX-FLAGS-UNCHECKED")
 	}
+	if bad, why := badRegexBody(mtree); bad != "" {
+		if !(strings.Contains(why, "assertion cannot be quantified") && known("C04-REGEX-QUANTIFIED-ASSERTION")) {
+			v.fail = fmt.Sprintf("(c) accepted the regular expression literal /%s/ whose body is not an ES5 Pattern (15.10.1; rejected even with the web-compatibility leniencies): %s; src=%s", bad, why, show(src))
+			return
+		}
+		v.exclude("C04-REGEX-QUANTIFIED-ASSERTION")
+	}
 	al := m04.Align(mut, ot, known)
 	for _, id := range al.Tolerated {
 		v.exclude(id)
@@ -579,6 +586,19 @@ func faithful(v *verdict, prog *ast.Program, tree *m04.Tree, mut []minijs.Token,
 	if al.TrailingComma > 0 {
 		v.class("c:trailing-comma")
 	}
+}
+
+// badRegexBody returns the first regular expression literal of the tree whose body the lenient
+// ES5 pattern recogniser rejects.
+func badRegexBody(tree *minijs.Node) (body, why string) {
+	minijs.Walk(tree, func(n *minijs.Node) {
+		if body == "" && n.K == "regex" {
+			if err := m04.ES5Pattern(n.Lit, false); err != nil {
+				body, why = n.Lit, err.Error()
+			}
+		}
+	})
+	return body, why
 }
 
 func hasEmptySetter(tree *minijs.Node) bool {
